@@ -421,6 +421,35 @@ def run(p):
             exp = None if hv is None else round(hv, nd)
             key = 'round:zero-height-dropped' if zero(hv) else 'round:height'
             p.check(hx(rv) == hx(exp), key, 'round_keeps_heights', inp + [hname], rv, exp, f'round({desc(o)}, {nd}).{hname}')
+    # 3d. copies derived from an object that has already been used (a rounded copy, a copy in another notation) are objects in their
+    #     own right: converting them gives what a fresh object with the numbers they SHOW gives — nothing of the original's
+    #     earlier conversions travels with the copy
+    for _ in range(p.n(400, 12000)):
+        kind = rng.choice(['geo', 'geo', 'cart', 'tm'])
+        en, pn = rng.choice(['grs80', 'ans']), rng.choice(['utm', 'isg'])
+        o = gen_obj(rng, kind, en, pn)
+        first, _ = gen_call(rng, kind, en, pn, True)
+        if first[0] != 'notation':
+            try:
+                check_step(p, o, first)
+            except Exception:  # noqa
+                pass
+        derived = []
+        try:
+            derived.append(('round', round(o, rng.choice([0, 1, 2, 4, 6, 9]))))
+        except Exception:  # noqa  (what round() accepts is 3c's / C12's subject)
+            pass
+        if kind == 'geo':
+            try:
+                derived.append(('notation', o.notation(NOTS[rng.choice(NOTNAMES)])))
+            except Exception:  # noqa
+                pass
+        for how, r in derived:
+            call, _ = gen_call(rng, kind, rng.choice(['grs80', 'ans']), pn if kind == 'tm' else rng.choice(['utm', 'isg']), True)
+            if call[0] == 'notation':
+                continue
+            p.case('derived_copy', [desc(o), how, call[0]])
+            check_step(p, r, call)
     # 4. closed chains
     for _ in range(p.n(1500, 60000)):
         en, pn = rng.choice(['grs80', 'ans']), rng.choice(['utm', 'isg'])
